@@ -54,7 +54,12 @@ impl<I: ConnectSyscall> ConnectSyscall for NioConnectSyscall<I> {
                 break;
             }
             let errno = Error::last_os_error().raw_os_error();
-            if errno == Some(libc::EINPROGRESS) || errno == Some(libc::EALREADY) || errno == Some(libc::EWOULDBLOCK) {
+            // EINTR: the connection attempt goes on in the background, like EINPROGRESS
+            if errno == Some(libc::EINPROGRESS)
+                || errno == Some(libc::EALREADY)
+                || errno == Some(libc::EWOULDBLOCK)
+                || errno == Some(libc::EINTR)
+            {
                 if !blocking {
                     // the caller asked for a non-blocking descriptor: report it at once
                     break;
@@ -99,7 +104,7 @@ impl<I: ConnectSyscall> ConnectSyscall for NioConnectSyscall<I> {
                     set_errno(libc::EINPROGRESS);
                     r = -1;
                 }
-            } else if errno != Some(libc::EINTR) {
+            } else {
                 break;
             }
         }
